@@ -47,7 +47,7 @@ type txStep struct {
 // txFault addresses one backend call of the run: the N-th (0-based) call with operation Op
 // on slice Slice while step Cmd is in flight.
 type txFault struct {
-	Kind  string `json:"kind"` // err | close | block
+	Kind  string `json:"kind"` // err | close | block | reload (the namespace is reloaded while the call is in flight)
 	Cmd   int    `json:"cmd"`
 	Slice string `json:"slice"`
 	Op    string `json:"op"`
@@ -112,6 +112,8 @@ var txSQL = map[string]string{
 	"fu":       "select * from t2 for update",
 	"rg":       "select * from tbl_glob",
 	"wg":       "update tbl_glob set a=1",
+	"sr":       "select * from t3", // unsharded, answered as a streamed result set (2 further row chunks)
+	"sm":       "select * from t4", // unsharded, answered with a second result set (multi-result)
 	"multi":    "begin;insert into t2 values (1);commit",
 }
 
@@ -132,7 +134,7 @@ func txClass(op string) string {
 		return "SP"
 	case "rs0", "rs1", "rs2", "ws0", "ws1", "ws2", "fs1", "rg", "wg":
 		return "S"
-	case "ru", "wu", "fu":
+	case "ru", "wu", "fu", "sr", "sm":
 		return "U"
 	case "ping", "pingfail":
 		return "P"
@@ -240,6 +242,8 @@ type txRun struct {
 	releaseSeq    int // log index at which the blocked call was released (-1: not yet)
 	seen          map[int64]*rigConn
 	pingFailArmed bool
+	reloadCfg     func() *models.Namespace
+	reloadErr     error
 }
 
 var txErrInjected = errors.New("rig: injected backend error")
@@ -288,6 +292,7 @@ func txStartEnv(t testing.TB) *txEnv {
 	}
 	env.r.B.Fault = env.onCall
 	env.r.B.Respond = env.respond
+	env.r.B.Stream = env.stream
 	return env
 }
 
@@ -342,8 +347,40 @@ func (env *txEnv) onCall(ev *rigEvent) *rigFault {
 		run.block = make(chan struct{})
 		run.blockDone = make(chan struct{})
 		return &rigFault{Name: "block", Block: run.block}
+	case "reload":
+		// reload the namespace (prepare + commit) while this backend call is in flight: the
+		// call returns only after the commit. Runs in its own goroutine because installing
+		// the new fakes needs the backend lock, which is held here.
+		ch := make(chan struct{})
+		cfg := run.reloadCfg
+		go func() {
+			env.reloadMu.Lock()
+			err := env.r.Reload(cfg())
+			env.reloadMu.Unlock()
+			if err != nil {
+				env.r.B.mu.Lock()
+				run.reloadErr = err
+				env.r.B.mu.Unlock()
+			}
+			close(ch)
+		}()
+		return &rigFault{Name: "reload", Block: ch}
 	}
 	return nil
+}
+
+// stream is the rig's Stream hook: statements on t3 / t4 get streamed answers. (Row chunks
+// and a further result set are not combined: writeRowsWithEOF clears SERVER_MORE_RESULTS_EXISTS
+// in the EOF that ends the streamed rows, so the client stops reading - a wire-protocol matter
+// outside these properties.)
+func (env *txEnv) stream(c *rigConn, sql string) (int, int) {
+	switch {
+	case strings.Contains(sql, " t3"):
+		return 2, 0
+	case strings.Contains(sql, " t4"):
+		return 0, 1
+	}
+	return 0, 0
 }
 
 // release lets the blocked call continue (backend lock held).
@@ -494,6 +531,7 @@ func (w *txWorker) Run(c *txCase) *txTrace {
 	b := env.r.B
 	ns := txNSName(w.idx, c.Mode)
 	run := &txRun{ns: ns, fault: c.Fault, counts: map[string]int{}, seen: map[int64]*rigConn{}, releaseSeq: -1}
+	run.reloadCfg = func() *models.Namespace { return txModeCfg(w.idx, c.Mode) }
 	tr := &txTrace{Case: c, NS: ns, w: w}
 	b.mu.Lock()
 	w.cur = run
@@ -600,6 +638,17 @@ func (w *txWorker) Run(c *txCase) *txTrace {
 			}
 			rs, err := s.c.Query(sql)
 			stt.Reply = txReplyOf(rs, err)
+			if (st.Op == "sr" || st.Op == "sm") && err == nil && stt.Reply.Kind != "err" {
+				// a streamed answer is complete for the client before the server has run its
+				// deferred recycleContinueConn: a backend-free command (COM_INIT_DB of the
+				// current database) is answered only after that, and its OK packet carries
+				// the session's own status (the streamed packets carry the backend's)
+				if pr, perr := s.c.InitDB("db"); perr == nil && pr != nil && pr.IsOK {
+					stt.Reply.Status, stt.Reply.HasStatus = pr.Status, true
+				} else if perr != nil {
+					stt.Reply = txReply{Kind: "lost", Msg: perr.Error()}
+				}
+			}
 		}
 		// release a blocked backend call now that the client has its reply, and wait until
 		// it has left the fake connection (so that the next command does not overlap it)
@@ -678,6 +727,9 @@ func (w *txWorker) Run(c *txCase) *txTrace {
 	// clean the namespace for the next case: force-return what the case leaked
 	b.mu.Lock()
 	run.release(len(b.events))
+	if run.reloadErr != nil && tr.Disturbed == "" {
+		tr.Disturbed = "reload: " + run.reloadErr.Error()
+	}
 	tr.Fired, tr.FiredEv, tr.FiredHeld = run.fired, run.firedEv, run.held
 	w.cur = nil
 	var leaked []*rigConn
